@@ -137,6 +137,30 @@ RangeVerdict(amin, amax, lo, hi) ==
     ELSE IF MissLow(amin, lo, hi) \/ MissHigh(amax, lo, hi) THEN "MustRefuse"
     ELSE "Either"
 
+(* Usable frequency range of a parameter a standard is made of.  `tab` maps *)
+(* handles to records with field kind:                                     *)
+(*   "scalar"                     no limits                                *)
+(*   "vec"   k = knot vector      the span of its knots                    *)
+(*   "unk"   base                 the range of the parameter serving as    *)
+(*                                initial guess                            *)
+(*   "corr"  base, sk             the range of the base intersected with   *)
+(*                                the span of the sigma frequency vector   *)
+(*                                sk (sk = <<>>: one sigma, no own limit)  *)
+(* An empty intersection comes out as amin > amax (covers nothing).        *)
+FInf == 1000000
+Intersect(a, b) == <<Max2(a[1], b[1]), Min2(a[2], b[2])>>
+
+RECURSIVE FreqRange(_, _)
+FreqRange(tab, h) ==
+    LET p == tab[h]
+    IN CASE p.kind = "scalar" -> <<0, FInf>>
+         [] p.kind = "vec"    -> <<KMin(p.k), KMax(p.k)>>
+         [] p.kind = "unk"    -> FreqRange(tab, p.base)
+         [] p.kind = "corr"   ->
+              IF Len(p.sk) >= 2
+              THEN Intersect(FreqRange(tab, p.base), <<KMin(p.sk), KMax(p.sk)>>)
+              ELSE FreqRange(tab, p.base)
+
 (* several supplied ranges used over one band (all parameters a            *)
 (* calibration holds when its frequency vector is (re)set)                 *)
 RangeVerdictAll(ranges, lo, hi) ==
